@@ -339,6 +339,42 @@ package model
 //@   property C18 C07 C09 C15 C20
 //@   ensures [name] result == (count == 0 ? name : name + itoa(count))
 
+//@ func (*Criteria).NotUsedName
+//@   property C18 C07 C19
+//@   ensures [name_then_count_of_ids_with_that_prefix] result == (cntp(*c, name, len(*c)) == 0 ? name : name + itoa(cntp(*c, name, len(*c))))
+//@ func (*Criterion).IsGain
+//@   property C14 C12 C13 C03
+//@   nopanic
+//@   ensures [gain_unless_declared_cost] result <==> c.Type != Cost
+//@ func (*Criteria).First
+//@   property C18 C19
+//@   ensures [first] len(*c) > 0 && result == (*c)[0]
+//@ func (*Criteria).Weight
+//@   property C15 C07
+//@   panics_iff [no_such_criterion_or_weight] !(0 <= criterionIndex && criterionIndex < len(*c)) || !((*c)[criterionIndex].Id in weights)
+//@   ensures [of_that_criterion] (*c)[criterionIndex].Id in weights && result == weights[(*c)[criterionIndex].Id]
+//@ func (*Criteria).Names
+//@   property C20 C18
+//@   nopanic
+//@   ensures [ids_in_order] fresh(result) && fresh(*result) && len(*result) == len(*c) && forall i int :: 0 <= i && i < len(*c) ==> (*result)[i] == (*c)[i].Id
+//@   loop 1 invariant [so_far] fresh(result) && len(result) == len(*c) && forall i int :: 0 <= i && i < iter ==> result[i] == (*c)[i].Id
+//@ func (*Criteria).ShallowCopy
+//@   property C09 C07
+//@   nopanic
+//@   ensures [copy] fresh(result) && fresh(*result) && len(*result) == len(*c) && (forall i int :: 0 <= i && i < len(*c) ==> (*result)[i] == (*c)[i]) && unchanged(*c)
+//@ func (*Criteria).Len
+//@   property C20
+//@   nopanic
+//@   ensures result == len(*c)
+//@ func (Criterion).Identifier
+//@   property C20
+//@   nopanic
+//@   ensures result == c.Id
+//@ func (*WeightedCriterion).AsWeights
+//@   property C07 C18
+//@   nopanic
+//@   ensures [single] result != nil && fresh(result) && c.Id in *result && (*result)[c.Id] == c.Weight && forall q string :: q in *result ==> q == c.Id
+
 //@ func SingleWeight
 //@   property C18 C07 C03 C04
 //@   nopanic
@@ -610,6 +646,16 @@ package model
 
 // ---- decision-maker-helpers.go: Rank (C01, C03, C04)
 
+// the weights of a request: what its "weights" parameter decodes to; a request without that parameter is rejected
+//@ func ExtractWeights
+//@   property C03 C20 C15
+//@   panics_if [weights_missing] !("weights" in dm.MethodParameters)
+//@   ensures [given] "weights" in dm.MethodParameters
+//@ func WeightsParamOnly
+//@   property C20
+//@   nopanic
+//@   ensures [schema_of_the_weights_parameter] typeis(result, WeightType)
+
 //@ func Rank
 //@   property C01 C03 C04
 //@   fnparam pref pure
@@ -640,14 +686,17 @@ package model
 //@   ensures [fresh_copy] fresh(result) && fresh(*result) && len(*result) == len(*alternatives) && forall k int :: 0 <= k && k < len(*alternatives) ==> (*result)[k] == (*alternatives)[k]
 //@   ensures [input_untouched] unchanged(*alternatives)
 
+//@ pred distinctAltIds(a []AlternativeWithCriteria) = forall i int, j int :: 0 <= i && i < j && j < len(a) ==> a[i].Id != a[j].Id
 //@ func ShuffleAlternatives
 //@   property C09 C01 C03 C04 C14 C16
 //@   fnparam generator ensures 0.0 <= result && result < 1.0
 //@   ensures [fresh_permutation] fresh(result) && fresh(*result) && len(*result) == len(*alternatives)
 //@   ensures [members] forall k int :: 0 <= k && k < len(*result) ==> exists j int :: 0 <= j && j < len(*alternatives) && (*result)[k] == (*alternatives)[j]
+//@   ensures [none_twice] distinctAltIds(*alternatives) ==> distinctAltIds(*result)
 //@   ensures [input_untouched] unchanged(*alternatives)
 //@   loop 1 invariant [ctx] fresh(copied) && len(copied) == alternativesCount && alternativesCount == len(*alternatives) && i < alternativesCount && unchanged(*alternatives)
 //@   loop 1 invariant [members] forall k int :: 0 <= k && k < len(copied) ==> exists j int :: 0 <= j && j < len(*alternatives) && copied[k] == (*alternatives)[j]
+//@   loop 1 invariant [none_twice] distinctAltIds(*alternatives) ==> distinctAltIds(copied)
 
 // RemoveAlternative deletes the first element with the given id IN PLACE (the caller must own the backing array)
 //@ func RemoveAlternative
